@@ -27,7 +27,7 @@ GLUE = ["mode_table", "input_delay", "input_pack", "setclr_code", "mode_write", 
 def configs(tier, seed):
     cfgs = []
     if tier == "quick":
-        space = [(1, 8, 4, 2), (2, 8, 4, 0), (4, 8, 4, 1), (5, 16, 4, 3), (9, 8, 6, 2), (17, 32, 4, 2), (3, 32, 3, 1)]
+        space = [(1, 8, 4, 2), (2, 8, 4, 0), (4, 8, 4, 1), (5, 16, 4, 3), (9, 8, 6, 2), (17, 32, 4, 2), (3, 32, 3, 1), (20, 8, 6, 1)]
     else:
         space = [(p, dw, aw, st) for p in (1, 2, 3, 4, 5, 8, 9, 16, 17, 33) for dw in (8, 16, 32) for aw in (4, 6) for st in (0, 1, 2, 3)]
     for p, dw, aw, st in space:
